@@ -33,7 +33,7 @@ func c08Path(target string, rel []string) string {
 
 // VerifC08: verify against an arbitrary directory state. Forest of n rows (names single path elements, distinct
 // roots); each node path present or not (downward closed; a childless present node may be a file or a directory,
-// a root may be a file), up to two extra entries at solver-chosen places beneath present directories; strict or not;
+// a root may be a file, the first root may be a symbolic link to a directory), up to two extra entries at solver-chosen places beneath present directories; strict or not;
 // From-Markdown (forest) or From-Root (first tree of the forest, built with NewRoot/Add).
 func VerifC08() {
 	n := verifN() % 10
@@ -118,6 +118,11 @@ func VerifC08() {
 	}
 	for _, r := range roots {
 		addNode(r)
+	}
+	if present[roots[0]] && !isFile[roots[0]] && verifFlag("rootLink") {
+		// the first root is a symbolic link to a directory (which holds everything listed beneath it): it exists, and
+		// so does what is beneath it
+		vfsMakeLink(nodeRel(nodes, roots[0]))
 	}
 	strict := verifFlag("strict")
 	vfsSeal()
